@@ -265,9 +265,11 @@ func Session(mask int, alt bool, variant int) *c01.Scn {
 // Every text, measured by whatever method, is far narrower than the screen: no wrapping, truncation or scrolling.
 // variant%3: 0 = pagers and text input, 1 = pagers only, 2 = text input only.
 func WidgetSession(mask int, alt bool, variant int) *Scn {
-	tricky := []string{"👩‍🚀", "☺️", "🇯🇵"}
+	// one joiner, a variation selector, a flag, two joiners, three joiners (a terminal that shows the parts of a
+	// joined sequence on their own needs every joiner taken out before measuring)
+	tricky := []string{"👩‍🚀", "☺️", "🇯🇵", "👨‍👩‍👧", "👨‍👩‍👧‍👦"}
 	plain := []string{"a", "世", "é", "x"}
-	t := func(k int) string { return tricky[(variant+k)%3] }
+	t := func(k int) string { return tricky[(variant+k)%len(tricky)] }
 	p := func(k int) string { return plain[(variant+k)%4] }
 	bg := c01.StyleD{Bg: uint32(vaxis.IndexColor(uint8(1 + variant%6)))}
 	none := c01.StyleD{}
@@ -287,7 +289,7 @@ func WidgetSession(mask int, alt bool, variant int) *Scn {
 		return ops
 	}
 	// (the last row stays empty: text a wrongly measuring library pushes over the end of a row wraps, not scrolls)
-	return Plain(&c01.Scn{Kind: "caps-widget", Mask: mask, Alt: alt, Cols: 20, Rows: 5, Frames: []c01.Frame{
+	return Plain(&c01.Scn{Kind: "caps-widget", Mask: mask, Alt: alt, Cols: 40, Rows: 5, Frames: []c01.Frame{
 		{End: "render", Ops: texts("|", "!")}, {End: "render", Ops: texts("#", "?")}, {End: "refresh"}}})
 }
 
